@@ -735,3 +735,47 @@ Proof.
   destruct (Nat.lt_ge_cases 1078 (length src)) as [H2|H2]; [rewrite crypt2_rejects by (right; exact H2); discriminate|].
   rewrite crypt2_eval by assumption. cbv zeta. destruct (negb _); [discriminate|]. apply crypt2_headless_no_panic.
 Qed.
+
+(* ---- receivers that are not fresh: the laws hold for every previous state ---- *)
+Lemma auth_st_rejects_wrong_length dg0 src h m d : auth_from_headless_st dg0 src h = ROk (m, d) ->
+  (37 <= length src <= 85)%nat /\ size_ok (length src - 21) = true /\ length (a_hmac m) = (length src - 21)%nat /\ d = dg0.
+Proof.
+  unfold auth_from_headless_st. destruct (auth_from_headless src h) as [m'| |] eqn:E; try discriminate.
+  intro H. inversion H; subst. destruct (auth_headless_ok_length _ _ _ E) as [A [B C]]. auto.
+Qed.
+Lemma auth_st_bytes_rejects_wrong_length dg0 src m d : auth_from_bytes_st dg0 src = ROk (m, d) -> auth_len_ok (length src) /\ d = dg0.
+Proof.
+  unfold auth_from_bytes_st. destruct (auth_from_bytes src) as [m'| |] eqn:E; try discriminate.
+  intro H. inversion H; subst. split; [exact (auth_ok_length _ _ E)|reflexivity].
+Qed.
+Lemma auth_st_to_from dg0 src h m d : auth_from_headless_st dg0 src h = ROk (m, d) -> auth_to_bytes m = header_to_bytes h ++ src.
+Proof.
+  unfold auth_from_headless_st. destruct (auth_from_headless src h) as [m'| |] eqn:E; try discriminate.
+  intro H. inversion H; subst. exact (auth_headless_to_from _ _ _ E).
+Qed.
+Lemma auth_st_indep dg1 dg2 src h :
+  match auth_from_headless_st dg1 src h, auth_from_headless_st dg2 src h with
+  | ROk (m1, _), ROk (m2, _) => m1 = m2
+  | RErr e1, RErr e2 => e1 = e2
+  | RPanic, RPanic => True
+  | _, _ => False
+  end.
+Proof. unfold auth_from_headless_st. destruct (auth_from_headless src h); auto. Qed.
+
+Lemma crypt_st_rejects_wrong_length p0 q0 src h : length src <> 53%nat -> crypt_from_headless_st p0 q0 src h = RErr ErrInvalidSourceLength.
+Proof. intro H. unfold crypt_from_headless_st. rewrite crypt_headless_rejects by exact H. reflexivity. Qed.
+Lemma crypt_st_bytes_rejects_wrong_length p0 q0 src : length src <> 54%nat -> crypt_from_bytes_st p0 q0 src = RErr ErrInvalidSourceLength.
+Proof. intro H. unfold crypt_from_bytes_st. rewrite crypt_rejects by exact H. reflexivity. Qed.
+Lemma crypt_st_to_from p0 q0 src h m : crypt_from_headless_st p0 q0 src h = ROk m -> crypt_to_bytes m = header_to_bytes h ++ src.
+Proof.
+  unfold crypt_from_headless_st, crypt_keep. destruct (crypt_from_headless src h) as [m'| |] eqn:E; try discriminate.
+  intro H. inversion H; subst. rewrite <- (crypt_headless_to_from _ _ _ E). reflexivity.
+Qed.
+Lemma crypt2_st_rejects_wrong_length p0 q0 src h : (length src < 343)%nat \/ (1077 < length src)%nat ->
+  crypt2_from_headless_st p0 q0 src h = RErr ErrInvalidSourceLength.
+Proof. intro H. unfold crypt2_from_headless_st. rewrite crypt2_headless_rejects by exact H. reflexivity. Qed.
+Lemma crypt2_st_to_from p0 q0 src h m : crypt2_from_headless_st p0 q0 src h = ROk m -> crypt2_to_bytes m = header_to_bytes h ++ src.
+Proof.
+  unfold crypt2_from_headless_st, crypt2_keep, crypt_keep. destruct (crypt2_from_headless src h) as [m'| |] eqn:E; try discriminate.
+  intro H. inversion H; subst. rewrite <- (crypt2_headless_to_from _ _ _ E). reflexivity.
+Qed.
